@@ -6,3 +6,8 @@
 ; the specification compute the same term); constant operands are folded exactly
 (declare-fun real_mul (Real Real) Real)
 (declare-fun real_div (Real Real) Real)
+; what note.ParseDegree makes of a string (ParseDegree reads only its argument and tables fixed at start-up: it is a function;
+; these name its graph and are constrained only through ParseDegree's own contract)
+(declare-fun pdOk (String) Bool)
+(declare-fun pdNum (String) Int)
+(declare-fun pdName (String) Int)
